@@ -524,7 +524,7 @@ Lemma inv_step s e : inv s -> inv (step_state s e).
 Proof.
   intros (H & I & C). unfold step_state.
   destruct (s_closed s) eqn:Cl; [split; [exact H|split; [exact I|intros _; apply C; reflexivity]]|].
-  destruct e as [j pka|j| | | | | | |pkts|ds|j v|j].
+  destruct e as [j pka|j| | | | | | |pkts|pkts| |ds|j v|j].
   - (* EAddPeer *)
     destruct (find_peer j (s_peers s)) as [q|] eqn:F.
     + destruct (s_up s) eqn:U.
@@ -613,6 +613,18 @@ Proof.
     match goal with |- context [fold_left ?f ?l ?x] => destruct (fold_left f l x) as [ps1 a1] eqn:S end.
     apply (reads_fold (tun_read (s_up s))) in S; [|intros; eapply tun_read_spec; eassumption|exact I].
     destruct S as (S & I1). apply inv_with_pa; assumption.
+  - (* ETunErr *)
+    match goal with |- context [fold_left ?f ?l ?x] => destruct (fold_left f l x) as [ps1 a1] eqn:S end.
+    apply (reads_fold (tun_read (s_up s))) in S; [|intros; eapply tun_read_spec; eassumption|exact I].
+    destruct S as (S & I1). apply inv_with_pa; assumption.
+  - (* EFatalRead *)
+    match goal with |- context [stop_all _ ?a0] => destruct (stop_all (s_peers s) a0) as [ps1 a1] eqn:S end.
+    apply stop_all_spec in S; [|exact I]. destruct S as (S & _ & _).
+    unfold inv, cons_ok, base_of in *; cbn [s_acc s_peers s_closed s_up s_cfg fst snd resting fold_right].
+    rewrite Cl in H. unfold baseline in *.
+    split; [|split; [intros q []|auto]].
+    revert H S. unfold bal. generalize (s_acc s) (resting (s_peers s)) (recv_bufs (s_cfg s)) (dev_batch (s_cfg s)).
+    intros a r n d H S. destruct (s_up s); vlia.
   - (* ENet *)
     destruct (s_up s) eqn:U; cbn [negb]; [|split; [exact H|split; [exact I|rewrite Cl; discriminate]]].
     match goal with |- context [fold_left ?f ?l ?x] => destruct (fold_left f l x) as [ps1 a1] eqn:S end.
@@ -690,6 +702,27 @@ Proof.
   split; [|exact E]. unfold outstanding. rewrite E. generalize (a_put (s_acc s)). intros v. vlia.
 Qed.
 
+(* the same when the device closes itself after a fatal TUN read *)
+Lemma fatal_closes s : s_closed (step_state s EFatalRead) = true.
+Proof. unfold step_state. destruct (s_closed s) eqn:E; [exact E|reflexivity]. Qed.
+
+Theorem fatal_read_zero : forall c evs evs',
+  let s := reached c (evs ++ EFatalRead :: evs') in
+  outstanding s = vzero /\ a_get (s_acc s) = a_put (s_acc s).
+Proof.
+  intros c evs evs' s.
+  assert (Hs : s = reached c (evs ++ [EFatalRead])).
+  { unfold s, reached. change (EFatalRead :: evs') with ([EFatalRead] ++ evs'). rewrite app_assoc, final_app.
+    apply final_step_state. rewrite final_app. unfold final at 1. cbn [run step fst]. apply fatal_closes. }
+  assert (Hc : s_closed s = true).
+  { rewrite Hs. unfold reached. rewrite final_app. unfold final at 1. cbn [run step fst]. apply fatal_closes. }
+  pose proof (reached_inv c (evs ++ [EFatalRead])) as (H & _ & C). rewrite <- Hs in *.
+  destruct (C Hc) as (Hp & Hu).
+  unfold cons_ok, base_of, baseline in H. rewrite Hc, Hp in H. cbn [resting fold_right] in H.
+  assert (E : a_get (s_acc s) = a_put (s_acc s)) by (rewrite H; generalize (a_put (s_acc s)); intros v; vlia).
+  split; [|exact E]. unfold outstanding. rewrite E. generalize (a_put (s_acc s)). intros v. vlia.
+Qed.
+
 (* counting form of "no buffer is owned twice": a pool never gets back more than it handed out, and the number of
    holders (reader and receive routines, staged elements) is exactly the number outstanding *)
 Theorem no_double_owner : forall c evs,
@@ -735,7 +768,7 @@ Ltac dmatch :=
          end.
 
 Lemma up_step s e : s_closed s = false ->
-  s_up (step_state s e) = match e with EUp => true | EDown => false | EClose => false | _ => s_up s end.
+  s_up (step_state s e) = match e with EUp => true | EDown => false | EClose => false | EFatalRead => false | _ => s_up s end.
 Proof.
   intros H. unfold step_state. rewrite H.
   destruct e; dmatch; cbn [with_pa s_up negb] in *; try reflexivity; try congruence;
@@ -743,7 +776,7 @@ Proof.
 Qed.
 
 Lemma closed_step s e : s_closed s = false ->
-  s_closed (step_state s e) = match e with EClose => true | _ => false end.
+  s_closed (step_state s e) = match e with EClose => true | EFatalRead => true | _ => false end.
 Proof.
   intros H. unfold step_state. rewrite H.
   destruct e; dmatch; cbn [with_pa s_closed negb] in *; try reflexivity; try congruence;
